@@ -43,6 +43,11 @@ FAMILIES = [
     ("def {H}doc({a}):\n    'adds one'\n    return {a} + 1\n", "lambda {e}: {H}doc({e}.i_pt)"),
     # same helper used twice with different arguments, one of them a call of the helper
     ("def {H}inc({a}):\n    return {a} + 1\n", "lambda {e}: {H}inc({H}inc({e}.i_pt)) - {H}inc({e}.i_eta)"),
+    # keyword-only and defaulted parameters: bound as Python binds them or left as a call
+    ("def {H}kw({a}, *, {b}):\n    return {a} - {b}\n", "lambda {e}: {H}kw({e}.i_pt, {b}={e}.i_eta)"),
+    ("def {H}kw({a}, *, {b}):\n    return {a} - {b}\n", "lambda {b}: {H}kw({b}.i_pt, {b}={b}.i_eta) + {b}.i_pt"),
+    ("def {H}df({a}, {b}=7):\n    return {a} - {b}\n", "lambda {e}: {H}df({e}.i_pt) + {H}df({e}.i_pt, {e}.i_eta)"),
+    ("def {H}df({a}, {b}=7):\n    return {a} - {b}\n", "lambda {b}: {H}df({b}.i_pt) - {b}.i_eta"),
     # comprehension in the helper
     ("def {H}lc({a}):\n    return [{j}.i_pt for {j} in {a}.so_jets if {j}.b_ok]\n", "lambda {e}: len({H}lc({e}))"),
 ]
